@@ -4,6 +4,7 @@ CONSTANTS
   MaxLen = 0
   NameLen = 2
   PairLen = 2
+  LongLen = 4
   SecLen = 0
   ValLen = 0
   BatchLen = 0
